@@ -176,6 +176,31 @@ def keyAt (d : ArrayData) (kw : Nat) (signed : Bool) (p : Nat) : Nat :=
   | keys :: _ => ((readInt keys kw signed (d.offset + p)).getD 0).toNat
   | [] => 0
 
+/-! ## View arrays (`equal/byte_view.rs`) -/
+
+/-- the 16 bytes of view `p` of `data.buffer::<u128>(0)` -/
+def viewAt (d : ArrayData) (p : Nat) : List Nat :=
+  match d.buffers with
+  | views :: _ => (views.drop ((d.offset + p) * 16)).take 16
+  | [] => []
+
+/-- `byte_view_equal`: null slots of the left operand (`lhs.is_null(lhs_start + idx)`) are skipped;
+length + 4-byte prefix (`*l as u64`) compared first; inline views (`len <= 12`) compared as whole
+`u128`s; long views by the bytes after the prefix in the data buffers they name -/
+def viewEqual (a b : ArrayData) (sa sb len : Nat) : Bool :=
+  (List.range len).all (fun idx =>
+    let lnull := match a.nulls with | some n => !nbit n (sa + idx) | none => false
+    if lnull then true else
+    let l := viewAt a (sa + idx)
+    let r := viewAt b (sb + idx)
+    if l.take 8 != r.take 8 then false else
+    let n := le32 l 0
+    if n ≤ 12 then l == r else
+    match (a.buffers.drop 1)[le32 l 8]?, (b.buffers.drop 1)[le32 r 8]? with
+    | some lb, some rb =>
+      (lb.drop (le32 l 12 + 4)).take (n - 4) == (rb.drop (le32 r 12 + 4)).take (n - 4)
+    | _, _ => false)
+
 /-! ## Run-end encoded arrays (`equal/run.rs`, `RunEndBuffer`) -/
 
 /-- view of the run-ends child as `RunArrayData::new` builds it: the *whole* first buffer of
@@ -246,6 +271,7 @@ def equalValuesT : DType → ArrayData → ArrayData → Nat → Nat → Nat →
   | .fsb w, a, b, sa, sb, len => fixedEqual w a b sa sb len
   | .utf8 large, a, b, sa, sb, len => varEqual large a b sa sb len
   | .binary large, a, b, sa, sb, len => varEqual large a b sa sb len
+  | .view _, a, b, sa, sb, len => viewEqual a b sa sb len
   -- `list_equal::<T>`
   | .list large item _, a, b, sa, sb, len =>
     match a.children, b.children with
